@@ -83,6 +83,9 @@ func isSafeDecoded(codePoint int) bool {
 		return false
 	case codePoint >= 0xD800 && codePoint <= 0xDFFF:
 		return false
+	case codePoint >= '0' && codePoint <= '9':
+		// a raw digit would be read as part of a preceding \0 or legacy octal escape (\0\x31 is not \01)
+		return false
 	}
 	return true
 }
